@@ -105,7 +105,7 @@ func GenParams(t *rapid.T, p *Pkg, op *Op, decls []ParamDecl) (reflect.Value, []
 			g.Ctx = "json"
 			if sf.Type == readerType || sf.Type == rcType {
 				raw = []byte(rapid.StringN(0, 60, 240).Draw(t, "rawbody"))
-				f.Set(reflect.ValueOf(io.NopCloser(bytes.NewReader(raw))))
+				f.Set(reflect.ValueOf(RawBodyReader(raw, rapid.IntRange(0, 2).Draw(t, "raw_reader_shape"))))
 				continue
 			}
 			var schema *specgen.Schema
